@@ -11,7 +11,18 @@
               Keys          -> err :: enc_zss (drained queue)          (err is always 0)
               StartsWith    -> err :: enc_zss (drained queue)
               LongestPrefix -> [0; len; bytes ..] | [1; 1]
-   kept in step with harness/c09.go. *)
+   kept in step with harness/c09.go.
+
+   Type instances.  An input may begin with the pseudo-record [7; 0; i]: it
+   selects the Go instantiation the harness drives — i = 0 (or no record):
+   Trie[string, int] over queue.Queue, results drained and put back;
+   i = 16 + bits, bit 1: V is string (else a non-comparable struct), bit 2: the
+   result queue is queue.LQueue (behind a small adapter, see notes/C09.md)
+   instead of queue.Queue, bit 4: drained results are NOT put back, bit 8: K is
+   a named string type.  Keys are rebuilt from fresh byte slices and values by
+   strconv for every call.  The observation is decoded back to this wire, so
+   the record is simply dropped here: the model has no type parameter the
+   property could depend on. *)
 
 From Gogu Require Import Base C09_Model.
 
@@ -61,8 +72,15 @@ Definition enc_out (o : zout) : list Z :=
   | OLongest r => enc_res enc_zs r
   end.
 
+Definition strip_instance (w : list Z) : list Z :=
+  match w with
+  | 7 :: 0 :: _ :: rest => rest
+  | _ => w
+  end.
+
 (* the model (C09_Model.run) on a wire input *)
-Definition c09_run (w : list Z) : list Z :=
+Definition c09_run (w0 : list Z) : list Z :=
+  let w := strip_instance w0 in
   match dec_ops (length w) w with
   | Some ops =>
       let '(t, xs) := run ops empty in
@@ -71,7 +89,8 @@ Definition c09_run (w : list Z) : list Z :=
   end.
 
 (* the specification (the sorted association list C09_Model.run_spec) on a wire input *)
-Definition c09_spec (w : list Z) : list Z :=
+Definition c09_spec (w0 : list Z) : list Z :=
+  let w := strip_instance w0 in
   match dec_ops (length w) w with
   | Some ops =>
       let '(m, xs) := run_spec ops [] in
